@@ -4855,7 +4855,8 @@ def container_script_repr(container,imports,prefix,settings):
     if isinstance(container,list):
         d1,d2='[',']'
     elif isinstance(container,tuple):
-        d1,d2='(',')'
+        # a one-element tuple needs its trailing comma: (x) is just x
+        d1,d2='(',(',)' if len(result)==1 else ')')
     else:
         raise NotImplementedError
     rep=d1+','.join(result)+d2
